@@ -69,7 +69,10 @@ def mk_param(dims, pdesc):
         return pdesc
     tl = dims.letters[0]          # parameter descriptions say "t" for the time dimension, whatever its letter
     ds = fd.DimensionSet(dim_list=[dims[tl if l == "t" else l] for l in pdesc["dims"]])
-    return fd.FlodymArray(dims=ds, values=np.array([float(v) for v in pdesc["values"]]).reshape(ds.shape))
+    vals = np.array([float(v) for v in pdesc["values"]]).reshape(ds.shape)
+    if pdesc.get("dtype") == "int" and np.all(vals == np.round(vals)):
+        vals = vals.astype(np.int64)          # whole-number parameters (years) handed over as an integer array
+    return fd.FlodymArray(dims=ds, values=vals)
 
 
 def param_full(case):
